@@ -156,6 +156,30 @@ def d_reqsub():
     >>> print('has json.decoder')
     has json.decoder
     """
+def d_leavetask():
+    """
+    >>> import asyncio
+    >>> async def late():
+    ...     await asyncio.sleep(0)
+    ...     await asyncio.sleep(0)
+    ...     print('late output of d_leavetask')
+    >>> async def start():
+    ...     asyncio.get_running_loop().create_task(late())
+    ...     print('started')
+    >>> await start()
+    started
+    """
+def d_await2():
+    """
+    >>> import asyncio
+    >>> async def twice():
+    ...     await asyncio.sleep(0)
+    ...     await asyncio.sleep(0)
+    ...     await asyncio.sleep(0)
+    ...     print('twice done')
+    >>> await twice()
+    twice done
+    """
 def d_await():
     """
     >>> import asyncio
@@ -281,7 +305,7 @@ class HistorySpec(Spec):
         self.max_cost = 99
         self.rule = ('default options %r (one shared dict per history) x all sequences of <= %d run events over %d events (%d doctests; the environment-sensitive one with '
                      'XV_F set and unset); one set of DocTest objects per history, so repeating an event re-runs the '
-                     'same object; non-trivial = history of >= 2 runs' % (list(CONFIGS), max_len, len(EVENTS), len(NAMES)))
+                     'same object; histories under non-empty default options are one run shorter; non-trivial = history of >= 2 runs' % (list(CONFIGS), max_len, len(EVENTS), len(NAMES)))
         baselines()
 
     # model state for counting: which kinds of residue previous runs could have left
@@ -291,6 +315,8 @@ class HistorySpec(Spec):
     def enabled(self, S, hist):
         if S is None:
             return [('config', c) for c in CONFIGS]
+        if hist[0][1] != 'none' and len(hist) >= self.max_len - 1:
+            return ()            # with non-empty default options: histories one run shorter
         return EVENTS
 
     def cost(self, ev):
